@@ -126,7 +126,7 @@ Proof.
   destruct (TInv_stack_nonempty _ I L) as (r & rest & Er & Nr).
   apply TInv_set_stack; try assumption.
   - unfold vset. rewrite Er. destruct (firstn_cons_root r rest k K1) as [tl Et]. rewrite Et. simpl. eauto.
-  - apply Forall_vset; [|exact Kn]. destruct I2 as [A _]. unfold handles_of in A. inversion A as [|x l _ A1]; subst.
+  - apply Forall_vset; [|exact Kn]. destruct I2 as [A _]. unfold state_handles in A. pose proof A as A1.
     apply Forall_app in A1. destruct A1 as [A1 _]. exact A1.
   - unfold tm_ok, tcount in I7. unfold tcount_of.
     assert (Hn : is_template s h = false).
@@ -145,7 +145,7 @@ Proof.
   destruct (TInv_stack_nonempty _ I L) as (r & rest & Er & Nr).
   apply TInv_set_stack; try assumption.
   - unfold vinsert. rewrite Er. destruct (firstn_cons_root r rest k K1) as [tl Et]. rewrite Et. simpl. eauto.
-  - apply Forall_vinsert; [|exact Kn]. destruct I2 as [A _]. unfold handles_of in A. inversion A as [|x l _ A1]; subst.
+  - apply Forall_vinsert; [|exact Kn]. destruct I2 as [A _]. unfold state_handles in A. pose proof A as A1.
     apply Forall_app in A1. destruct A1 as [A1 _]. exact A1.
   - unfold tm_ok, tcount in I7. unfold tcount_of.
     assert (Hn : is_template s h = false).
@@ -158,7 +158,7 @@ Qed.
 Lemma keeps_stack_change s0 s st' :
   keeps s0 s -> TInv (set_open_elems st' s) -> keeps s0 (set_open_elems st' s).
 Proof.
-  intros [_ S] I. split; [exact I|]. eapply stable_trans; [exact S|]. constructor; try reflexivity. exists []. simpl. rewrite app_nil_r. reflexivity.
+  intros [_ S] I. split; [exact I|]. eapply stable_trans; [exact S|]. apply stable_eqs; reflexivity.
 Qed.
 
 (* ---------- formatting elements are not special ---------- *)
@@ -228,9 +228,9 @@ Lemma wp_aaa_inner s0 fe fb fsi (Q : handle * bookmark -> st -> Prop) :
   1 <= fsi -> fb <> fe ->
   (forall ln bm' s', keeps s0 s' -> late s' ->
       nth_error (open_elems s') fsi = Some fe -> In fb (open_elems s') ->
-      has_af_entry s' fe -> bm_ok s' 0 fe bm' -> Q (ln, bm') s') ->
+      has_af_entry s' fe -> bm_ok s' 0 fe bm' -> known s' ln -> Q (ln, bm') s') ->
   forall node_index counter s last_node bm,
-  keeps s0 s -> late s ->
+  keeps s0 s -> late s -> known s last_node ->
   fsi < node_index -> node_index <= length (open_elems s) ->
   nth_error (open_elems s) fsi = Some fe ->
   (exists j, node_index <= j /\ nth_error (open_elems s) j = Some fb) ->
@@ -238,7 +238,7 @@ Lemma wp_aaa_inner s0 fe fb fsi (Q : handle * bookmark -> st -> Prop) :
   bm_ok s node_index fe bm ->
   wp (aaa_inner node_index counter fe fb last_node bm) Q s.
 Proof.
-  intros Hfsi Nfb H. induction node_index as [|ni IH]; intros counter s last_node bm K L Lo Hi Efe (jb & Ljb & Efb) Afe Bm; [lia|].
+  intros Hfsi Nfb H. induction node_index as [|ni IH]; intros counter s last_node bm K L Kl Lo Hi Efe (jb & Ljb & Efb) Afe Bm; [lia|].
   cbn [aaa_inner]. rewrite wp_bind, wp_get, wp_bind, wp_unwrap.
   destruct (nth_error (open_elems s) ni) as [node|] eqn:En; [|apply nth_error_None in En; lia].
   exists node. split; [reflexivity|].
@@ -251,14 +251,15 @@ Proof.
   assert (Lni : fsi < ni) by lia.
   pose proof (nth_error_lt _ _ _ En) as Lnl.
   (* removing stack entry ni *)
-  assert (RemoveStack : forall s1 cnt, keeps s0 s1 -> late s1 -> open_elems s1 = open_elems s ->
+  assert (RemoveStack : forall s1 cnt, keeps s0 s1 -> late s1 -> known s1 last_node -> open_elems s1 = open_elems s ->
             has_af_entry s1 fe -> bm_ok s1 (S ni) fe bm ->
             wp (modify (fun s => set_open_elems (vremove ni (open_elems s)) s) ;;
                 aaa_inner ni cnt fe fb last_node bm) Q s1).
-  { intros s1 cnt K1 L1 E1 A1 B1. rewrite wp_bind, wp_modify.
+  { intros s1 cnt K1 L1 Kl1 E1 A1 B1. rewrite wp_bind, wp_modify.
     apply IH.
     - apply keeps_vremove_stack; [exact K1 | exact L1 | lia].
     - exact L1.
+    - exact Kl1.
     - exact Lni.
     - cbn [open_elems set_open_elems]. rewrite E1, vremove_length; lia.
     - cbn [open_elems set_open_elems]. rewrite E1, nth_error_vremove_lt; assumption.
@@ -271,12 +272,13 @@ Proof.
   destruct (Nat.ltb 3 (S counter)).
   - rewrite wp_bind. apply wp_probe. rewrite wp_bind.
     set (s1 := set_out _ s).
-    assert (K1 : keeps s0 s1) by (apply keeps_set_out; exact K).
+    assert (K1 : keeps s0 s1) by ((apply keeps_set_out; [|reflexivity]); exact K).
     destruct (position_in_af s node) as [p|] eqn:Ep.
     + rewrite wp_modify. destruct (position_in_af_some _ _ _ Ep) as [t Et].
       apply RemoveStack.
       * apply keeps_set_af; [exact K1|]. apply Forall_vremove. destruct K1 as [I1 _]. apply TInv_af_entries. exact I1.
       * exact L.
+      * exact Kl.
       * reflexivity.
       * unfold has_af_entry. cbn [active_formatting set_active_formatting s1 set_out].
         eapply has_af_entry_vremove; [exact Afe | exact Et | exact Nnf | reflexivity].
@@ -284,22 +286,22 @@ Proof.
         unfold has_af_entry. cbn [active_formatting set_active_formatting s1 set_out].
         eapply has_af_entry_vremove; [exact Bx | exact Et | | reflexivity].
         intro X. subst x. apply (By ni); [lia | exact En].
-    + rewrite wp_ret. apply RemoveStack; [exact K1 | exact L | reflexivity | exact Afe | exact Bm].
+    + rewrite wp_ret. apply RemoveStack; [exact K1 | exact L | exact Kl | reflexivity | exact Afe | exact Bm].
   - destruct (position_in_af s node) as [nfi|] eqn:Ep.
-    2:{ rewrite wp_bind. apply wp_probe. apply RemoveStack; [apply keeps_set_out; exact K | exact L | reflexivity | exact Afe | exact Bm]. }
+    2:{ rewrite wp_bind. apply wp_probe. apply RemoveStack; [(apply keeps_set_out; [|reflexivity]); exact K | exact L | exact Kl | reflexivity | exact Afe | exact Bm]. }
     destruct (position_in_af_some _ _ _ Ep) as [t Et].
     rewrite wp_bind, wp_unwrap. exists (FElem node t). split; [exact Et|].
     rewrite wp_bind, wp_assert. split; [unfold same_node; apply Nat.eqb_refl|].
     rewrite wp_bind. apply wp_probe. rewrite wp_bind. unfold wp at 1. rewrite sink_create_element_eq.
     set (s1 := set_out _ s). set (new := next_handle s1). set (s2 := new_elem_state _ _ _ s1).
-    assert (K2 : keeps s0 s2) by (apply new_elem_keeps; apply keeps_set_out; exact K).
+    assert (K2 : keeps s0 s2) by (apply new_elem_keeps; (apply keeps_set_out; [|reflexivity]); exact K).
     assert (L2 : late s2) by exact L.
     pose proof K as [I S].
     destruct (inv_af _ I _ _ (nth_error_In _ _ Et)) as [_ Ft].
     assert (Kn : known s2 new) by apply new_elem_known.
     assert (Enew : ename_of s2 new = (ns_html, tg_name t)) by apply new_elem_name.
     assert (Fresh : forall j, nth_error (open_elems s) j <> Some new).
-    { intros j X. apply nth_error_In in X. pose proof (TInv_stack_known _ _ I X) as Kx. unfold known, new, s1, next_handle in *. simpl in *. lia. }
+    { intros j X. apply nth_error_In in X. pose proof (known_lt _ _ (TInv_stack_known _ _ I X)) as Kx. unfold new, s1, next_handle in *. simpl in *. lia. }
     rewrite wp_bind, wp_get, wp_bind, wp_assert. split; [apply Nat.ltb_lt; exact Lnl|].
     rewrite wp_bind, wp_assert. split; [apply Nat.ltb_lt; eapply nth_error_lt; exact Et|].
     rewrite wp_bind, wp_modify, wp_bind, wp_emit, wp_bind, wp_emit.
@@ -312,9 +314,18 @@ Proof.
         apply (TInv_vset_stack s2); [exact I2 | exact L2 | lia | exact Lnl | exact Kn | rewrite Enew; apply formatting_not_head; exact Ft | rewrite Enew; apply formatting_not_template; exact Ft].
       - apply Forall_vset; [destruct K2 as [I2 _]; exact (TInv_af_entries _ I2)|].
         simpl. repeat split; assumption. }
+    assert (Kl3 : known s3 last_node).
+    { change (known s2 last_node). eapply stable_known; [apply new_elem_stable | exact Kl]. }
+    assert (K4 : keeps s0 (set_out (EvOp (OpRemoveFromParent last_node) :: out s3) s3)).
+    { apply keeps_emit; [exact K3 | reflexivity | reflexivity | cbn [op_okb]; exact (known_v_known _ _ Kl3)]. }
     apply IH.
-    + apply keeps_set_out. apply keeps_set_out. exact K3.
+    + apply keeps_emit; [exact K4 | reflexivity | reflexivity |]. cbn [op_okb].
+      change (sv (set_out (EvOp (OpRemoveFromParent last_node) :: out s3) s3)) with (sv s3).
+      assert (Kn3 : known s3 new) by exact Kn.
+      unfold v_container. rewrite (known_v_elem _ _ Kn3), orb_true_r. cbn [orb andb].
+      exact (known_child_ok s3 last_node (proj1 K3) Kl3).
     + exact L.
+    + exact Kn.
     + exact Lni.
     + cbn [open_elems set_out set_active_formatting set_open_elems s3]. rewrite vset_length; [lia | exact Lnl].
     + cbn [open_elems set_out set_active_formatting set_open_elems s3]. rewrite nth_error_vset_other; [exact Efe | lia | exact Lnl].
@@ -376,7 +387,7 @@ Proof.
   assert (Nsub : subject <> nm "html") by (apply is_formatting_neq; [exact Fs | reflexivity]).
   destruct (find (fun x => str_eqb (tg_name (snd x)) subject) (af_end_to_marker s)) as [[[fei fe] fet]|] eqn:Ef.
   2:{ rewrite wp_bind. apply wp_probe. rewrite wp_bind.
-      eapply wp_process_end_tag_in_body; [apply keeps_set_out; exact K | exact L | exact Nsub |].
+      eapply wp_process_end_tag_in_body; [(apply keeps_set_out; [|reflexivity]); exact K | exact L | exact Nsub |].
       intros s' K'. rewrite wp_ret. apply H. exact K'. }
   apply find_some in Ef. destruct Ef as [Hin Hname]. cbn [snd] in Hname. apply str_eqb_eq in Hname.
   apply af_end_to_marker_nth in Hin.
@@ -385,14 +396,14 @@ Proof.
   destruct (rposition (fun n => same_node n fe) (open_elems s)) as [fsi|] eqn:Er.
   2:{ rewrite wp_bind. apply wp_probe. rewrite wp_bind, wp_parse_error, wp_bind, wp_assert.
       split; [apply Nat.ltb_lt; exact Lfei|]. rewrite wp_bind, wp_modify, wp_ret. apply H.
-      apply keeps_set_af; [apply keeps_set_out; apply keeps_set_out; exact K|]. apply Forall_vremove. exact (TInv_af_entries _ I). }
+      apply keeps_set_af; [(apply keeps_set_out; [|reflexivity]); (apply keeps_set_out; [|reflexivity]); exact K|]. apply Forall_vremove. exact (TInv_af_entries _ I). }
   apply rposition_some in Er. destruct Er as (x & Efe & Sx). unfold same_node in Sx. apply Nat.eqb_eq in Sx. subst x.
   assert (Kfe : known s fe) by (eapply TInv_stack_known; [exact I | eapply nth_error_In; exact Efe]).
   destruct (TInv_stack_nonempty _ I L) as (r & rest & Est & Nr).
   assert (Lfsi : 1 <= fsi).
   { eapply named_not_root; [exact Est | exact Nr | exact Efe | exact Nfe |]. rewrite Hname. exact Nsub. }
   destruct (negb (in_scope s default_scope (fun n => same_node n fe))).
-  { rewrite wp_bind. apply wp_probe. rewrite wp_bind, wp_parse_error, wp_ret. apply H. apply keeps_set_out; apply keeps_set_out; exact K. }
+  { rewrite wp_bind. apply wp_probe. rewrite wp_bind, wp_parse_error, wp_ret. apply H. (apply keeps_set_out; [|reflexivity]); (apply keeps_set_out; [|reflexivity]); exact K. }
   rewrite wp_bind. apply wp_current_node; [exact I | exact L |]. intros cur Vcur.
   rewrite wp_bind.
   match goal with |- wp (when _ _) (fun _ s' => wp ?m Q s') s =>
@@ -400,7 +411,7 @@ Proof.
   end.
   2:{ rewrite wp_when. destruct (negb (same_node cur fe)).
       - rewrite wp_bind. apply wp_probe. rewrite wp_parse_error.
-        apply Cont; [apply keeps_set_out; apply keeps_set_out; exact K | reflexivity | reflexivity].
+        apply Cont; [(apply keeps_set_out; [|reflexivity]); (apply keeps_set_out; [|reflexivity]); exact K | reflexivity | reflexivity].
       - apply Cont; [exact K | reflexivity | reflexivity]. }
   intros s1 K1 E1 E2. pose proof K1 as [I1 S1].
   assert (L1 : late s1) by (eapply keeps_late; eassumption).
@@ -416,15 +427,20 @@ Proof.
     destruct (nth_error (open_elems s) i) as [ca|] eqn:Eca.
     2:{ apply nth_error_None in Eca. apply nth_error_lt in Efe. lia. }
     exists ca. split; [reflexivity|]. rewrite wp_bind.
-    apply (wp_aaa_inner s fe fb (S i)); [lia | exact Nfb | | exact K1 | exact L1 | exact Lfbi' | | | | |].
+    assert (Kfb : known s fb) by (eapply TInv_stack_known; [exact I | eapply nth_error_In; exact Enfb]).
+    assert (Kca : known s ca) by (eapply TInv_stack_known; [exact I | eapply nth_error_In; exact Eca]).
+    apply (wp_aaa_inner s fe fb (S i)); [lia | exact Nfb | | exact K1 | exact L1 | eapply stable_known; eassumption | exact Lfbi' | | | | |].
     2:{ rewrite E1. apply nth_error_lt in Enfb. lia. }
     2:{ rewrite E1. exact Efe. }
     2:{ rewrite E1. exists fbi. split; [lia | exact Enfb]. }
     2:{ exists fei, fet. rewrite E2. exact Hin. }
     2:{ reflexivity. }
-    intros ln bm' s2 K2 L2 Efe2 Infb2 Afe2 Bm2.
+    intros ln bm' s2 K2 L2 Efe2 Infb2 Afe2 Bm2 Kln.
     rewrite wp_bind, wp_emit, wp_bind.
-    eapply wp_insert_appropriately; [apply keeps_set_out; exact K2 | exact L2 |].
+    assert (K2' : keeps s (set_out (EvOp (OpRemoveFromParent ln) :: out s2) s2)).
+    { apply keeps_emit; [exact K2 | reflexivity | reflexivity | cbn [op_okb]; exact (known_v_known _ _ Kln)]. }
+    eapply wp_insert_appropriately; [exact K2' | exact L2 | apply known_child_ok; [exact (proj1 K2') | exact Kln] | |].
+    { intros t0 Et0. injection Et0 as <-. change (known s2 ca). eapply stable_known; [exact (proj2 K2) | exact Kca]. }
     intros s3 K3 [E3a E3b]. rewrite wp_bind. unfold wp at 1. rewrite sink_create_element_eq.
     set (ne := next_handle s3). set (s4 := new_elem_state _ _ _ s3).
     assert (K4 : keeps s s4) by (apply new_elem_keeps; exact K3).
@@ -432,7 +448,13 @@ Proof.
     assert (Ene : ename_of s4 ne = (ns_html, tg_name fet)) by apply new_elem_name.
     rewrite wp_bind, wp_emit, wp_bind, wp_emit.
     set (s5 := set_out _ (set_out _ s4)).
-    assert (K5 : keeps s s5) by (apply keeps_set_out; apply keeps_set_out; exact K4).
+    assert (Kfb4 : known s4 fb) by (eapply stable_known; [exact (proj2 K4) | exact Kfb]).
+    assert (K5 : keeps s s5).
+    { unfold s5. apply keeps_emit; [apply keeps_emit; [exact K4 | reflexivity | reflexivity |] | reflexivity | reflexivity |]; cbn [op_okb].
+      - rewrite (known_v_elem _ _ Kfb4), (known_v_elem _ _ Kne). reflexivity.
+      - change (sv (set_out (EvOp (OpReparentChildren fb ne) :: out s4) s4)) with (sv s4).
+        unfold v_container. rewrite (known_v_elem _ _ Kfb4), orb_true_r. cbn [orb andb].
+        exact (known_child_ok s4 ne (proj1 K4) Kne). }
     assert (L5 : late s5) by (eapply keeps_late; eassumption).
     assert (E5a : open_elems s5 = open_elems s2) by (cbn; exact E3a).
     assert (E5b : active_formatting s5 = active_formatting s2) by (cbn; exact E3b).
@@ -463,7 +485,9 @@ Proof.
       pose proof (nth_error_lt _ _ _ Ey) as Lpl.
       rewrite wp_bind, wp_modify, wp_emit, wp_bind, wp_get.
       set (s7 := set_out _ (set_open_elems _ s6)).
-      assert (K7 : keeps s s7) by (apply keeps_set_out; apply keeps_vremove_stack; assumption).
+      assert (K7 : keeps s s7).
+      { unfold s7. apply keeps_emit; [apply keeps_vremove_stack; assumption | reflexivity | reflexivity |]. cbn [op_okb].
+        apply known_v_elem. change (known s6 fe). eapply stable_known; [exact S6 | exact Kfe]. }
       assert (E7 : open_elems s7 = vremove p (open_elems s6)) by reflexivity.
       rewrite wp_bind, wp_unwrap.
       destruct (position_of_In (fun n => same_node n fb) (open_elems s7) fb) as [nfb Enfb'].
@@ -480,7 +504,7 @@ Proof.
     assert (Afe5 : has_af_entry s5 fe) by (destruct Afe2 as (p & t & E); exists p, t; rewrite E5b; exact E).
     destruct bm' as [tr|prev]; rewrite wp_bind, wp_bind; apply wp_probe; rewrite wp_bind, wp_get, wp_bind, wp_unwrap;
       match goal with |- context [set_out (EvArm 30 ?k :: out s5) s5] => set (sp := set_out (EvArm 30 k :: out s5) s5) end;
-      assert (Kp : keeps s sp) by (apply keeps_set_out; exact K5);
+      assert (Kp : keeps s sp) by ((apply keeps_set_out; [|reflexivity]); exact K5);
       pose proof Kp as [Ip _]; pose proof (TInv_af_entries _ Ip) as Fp;
       assert (EntryOkp : af_entry_ok sp (FElem ne fet)) by exact EntryOk.
     + cbn [bm_ok] in Bm2. subst tr.
@@ -508,7 +532,7 @@ Proof.
     rewrite wp_bind. apply wp_probe. rewrite wp_bind, wp_assert. split; [apply Nat.ltb_lt; exact Lfei|].
     rewrite wp_bind, wp_modify, wp_ret. apply H.
     apply keeps_set_af.
-    + apply keeps_truncate; [apply keeps_set_out; exact K1 | exact L1 | exact Lfsi].
+    + apply keeps_truncate; [(apply keeps_set_out; [|reflexivity]); exact K1 | exact L1 | exact Lfsi].
     + apply Forall_vremove. cbn. exact (TInv_af_entries _ I1).
 Qed.
 
@@ -517,7 +541,7 @@ Lemma wp_aaa_outer subject (Q : unit -> st -> Prop) : is_formatting subject = tr
   forall n s, TInv s -> late s -> (forall s', keeps s s' -> Q tt s') -> wp (aaa_outer n subject) Q s.
 Proof.
   intro Fs. induction n as [|n IH]; intros s I L H; cbn [aaa_outer].
-  - apply wp_probe. apply H. apply keeps_set_out. apply keeps_refl. exact I.
+  - apply wp_probe. apply H. (apply keeps_set_out; [|reflexivity]). apply keeps_refl. exact I.
   - rewrite wp_bind. apply wp_aaa_iteration; [exact I | exact L | exact Fs |].
     intros b s1 K1. destruct b.
     + rewrite wp_ret. apply H. exact K1.
@@ -536,7 +560,7 @@ Proof.
   - apply andb_true_iff in C. destruct C as [C _].
     rewrite wp_bind. apply wp_probe. rewrite wp_bind.
     destruct (TInv_stack_nonempty _ I L) as (r & rest & Est & Nr).
-    eapply wp_pop; [apply keeps_set_out; exact K | exact L | |].
+    eapply wp_pop; [(apply keeps_set_out; [|reflexivity]); exact K | exact L | |].
     + (* the current node is named `subject`, hence not the root *)
       cbn [open_elems set_out]. destruct rest as [|a t]; [|rewrite Est; simpl; lia]. exfalso.
       rewrite Est in V. simpl in V. injection V as <-. apply ename_eqb_eq in C. rewrite Nr in C.
@@ -555,7 +579,7 @@ Proof.
   assert (Kn : known s node) by (eapply known_handles_in; [apply inv_known; exact I | eapply in_handles_af; eapply nth_error_In; exact Hin]).
   rewrite wp_bind. apply wp_probe. rewrite wp_bind, wp_parse_error, wp_bind.
   set (s1 := set_out _ (set_out _ s)).
-  assert (K1 : keeps s s1) by (apply keeps_set_out; apply keeps_set_out; apply keeps_refl; exact I).
+  assert (K1 : keeps s s1) by ((apply keeps_set_out; [|reflexivity]); (apply keeps_set_out; [|reflexivity]); apply keeps_refl; exact I).
   apply (wp_adoption_agency s); [exact K1 | exact L | reflexivity |].
   intros s2 K2. pose proof K2 as [I2 S2]. assert (L2 : late s2) by (eapply keeps_late; eassumption).
   rewrite wp_bind, wp_get, wp_bind.
@@ -568,7 +592,8 @@ Proof.
     assert (Lp : 1 <= p).
     { eapply named_not_root; [exact Est | exact Nr | exact Ey | rewrite (keeps_name _ _ _ K3 Kn); apply named_ename; exact Na | discriminate]. }
     rewrite wp_bind, wp_modify, wp_emit. apply H. eapply keeps_trans; [exact K|].
-    apply keeps_set_out. apply keeps_vremove_stack; assumption. }
+    apply keeps_emit; [apply keeps_vremove_stack; assumption | reflexivity | reflexivity |]. cbn [op_okb].
+    apply known_v_elem. change (known s3 node). eapply stable_known; [exact S3 | exact Kn]. }
   destruct (position_in_af s2 node) as [q|] eqn:Eq.
   - rewrite wp_modify. apply Fin; [|exact L2].
     apply keeps_set_af; [exact K2|]. apply Forall_vremove. exact (TInv_af_entries _ I2).
